@@ -12,6 +12,7 @@ import RLV.Model.MenuSel
 import RLV.Model.Scan
 import RLV.Model.HistWrite
 import RLV.Model.HistFile
+import RLV.Model.Macro
 import RLV.Model.Parser
 import RLV.Model.Sel
 import RLV.Model.Term
@@ -139,6 +140,12 @@ def step (line : String) : String :=
     let sorted := out.toArray.qsort (fun a b => showNats a.1 < showNats b.1) |>.toList
     "ok " ++ ";".intercalate (sorted.map fun e =>
       s!"{showNats e.1}:{if e.2.entries.isEmpty then "-" else ",".intercalate (e.2.entries.map fun x => if x.isEmpty then "e" else showNats x)}")
+  | ["macro", start, cmds, stop] =>
+    -- start keys, the keys of each command run while recording (a;b;c), the keys of the stop command
+    let cs := (parseList cmds ";").map parseNats
+    let m := Macro.stopRecord (cs.foldl Macro.recordKeys (Macro.recordKeys (Macro.startRecord {}) (parseNats start))) (parseNats stop)
+    let stored := match m.stored with | some s => showNats s | none => "none"
+    s!"ok {stored} {showNats ((Macro.runLast m).map (· % 256))}"
   | ["hsearch", src, w0, ml, mp, flags] =>
     -- entries, initial walk, line and cursor to match against, flags usePos/fwd/regex
     let s0 : Hist.St := { src := (parseList src ",").map parseNats }
